@@ -282,3 +282,243 @@ B('c05b_compile_binding_helper_returns_type_as_name', ['C05'], 'R05.e',
 B('c05b_compile_binding_helper_colon_after_lookups', ['C05'], 'R05.b',
   (R, _CPP, _BINDING_HELPER.replace("    if op == ':':\n        op = ''\n", "").replace("    converter = build_converter(", "    if op == ':':\n        op = ''\n    converter = build_converter(") + _CPP),
   (R, _LOOP_BODY, _LOOP_CALL))
+
+# ---- fifth batch: the two closures as methods of a private callable class (the arity decision taken once in __init__, or at
+# every call on a stored flag) ------------------------------------------------------------------------------------------------
+_BUILD_DEF = "def build_converter(converter, optional=False, multi=False):\n" + _BUILD
+_CLS_INIT = ("class _SegmentConverter(object):\n"
+             "    def __init__(self, converter, optional=False, multi=False):\n"
+             "        self.converter = converter\n"
+             "        self.optional = optional\n"
+             "        self._convert = self._many if multi else self._one\n\n")
+_CLS_CALL = "    def __call__(self, value):\n        return self._convert(value)\n\n"
+_CLS_MANY = ("    def _many(self, value):\n        if not value and self.optional:\n            return []\n"
+             "        convert = self.converter\n        return [convert(v) for v in value.split('/')[1:]]\n\n")
+_CLS_ONE = ("    def _one(self, value):\n        if not value and self.optional:\n            return None\n"
+            "        return self.converter(value.replace('/', ''))\n\n\n")
+_CLS_BUILD = "def build_converter(converter, optional=False, multi=False):\n    return _SegmentConverter(converter, optional=optional, multi=multi)\n"
+_BUILD_CLASS = _CLS_INIT + _CLS_CALL + _CLS_MANY + _CLS_ONE + _CLS_BUILD
+_CLS_INIT_FLAG = _CLS_INIT.replace("        self._convert = self._many if multi else self._one\n", "        self.multi = multi\n")
+_CLS_CALL_FLAG = "    def __call__(self, value):\n        if self.multi:\n            return self._many(value)\n        return self._one(value)\n\n"
+_BUILD_CLASS_FLAG = _CLS_INIT_FLAG + _CLS_CALL_FLAG + _CLS_MANY + _CLS_ONE + _CLS_BUILD
+
+T('c05t_converter_callable_class', ['C05'], (R, _BUILD_DEF, _BUILD_CLASS))
+T('c05t_converter_class_dispatch_per_call', ['C05'], (R, _BUILD_DEF, _BUILD_CLASS_FLAG))
+T('c05t_converter_class_positional_named_instance', ['C05'],
+  (R, _BUILD_DEF, _BUILD_CLASS.replace("    return _SegmentConverter(converter, optional=optional, multi=multi)\n",
+                                       "    segment_converter = _SegmentConverter(converter, optional, multi)\n    return segment_converter\n")))
+B('c05b_class_selection_inverted', ['C05'], 'R05.e', (R, _BUILD_DEF, _BUILD_CLASS.replace("self._many if multi else self._one", "self._one if multi else self._many")))
+B('c05b_class_optional_marker_lost', ['C05'], 'R05.e', (R, _BUILD_DEF, _BUILD_CLASS.replace("(converter, optional=optional, multi=multi)", "(converter, multi=multi)")))
+B('c05b_class_flags_crossed_positionally', ['C05'], 'R05.e', (R, _BUILD_DEF, _BUILD_CLASS.replace("(converter, optional=optional, multi=multi)", "(converter, multi, optional)")))
+B('c05b_class_converter_applied_twice', ['C05'], 'R05.e',
+  (R, _BUILD_DEF, _BUILD_CLASS.replace("        return self._convert(value)\n", "        return self.converter(self._convert(value))\n")))
+B('c05b_class_optional_flag_consumed', ['C05'], 'R05.e',
+  (R, _BUILD_DEF, _BUILD_CLASS.replace("        if not value and self.optional:\n            return None\n",
+                                       "        if not value and self.optional:\n            self.optional = False\n            return None\n")))
+B('c05b_class_flag_kept_on_the_class', ['C05'], 'R05.e', (R, _BUILD_DEF, _BUILD_CLASS.replace("        self.optional = optional\n", "        _SegmentConverter.optional = optional\n")))
+B('c05b_class_shared_empty_list', ['C05'], 'R05.e',
+  (R, _BUILD_DEF, _BUILD_CLASS.replace("        self.optional = optional\n", "        self.optional = optional\n        self._absent = []\n")
+                              .replace("            return []\n", "            return self._absent\n")))
+B('c05b_class_per_call_dispatch_on_optional', ['C05'], 'R05.e', (R, _BUILD_DEF, _BUILD_CLASS_FLAG.replace("        if self.multi:\n", "        if self.optional:\n")))
+B('c05b_class_per_call_flag_holds_optional', ['C05'], 'R05.e', (R, _BUILD_DEF, _BUILD_CLASS_FLAG.replace("        self.multi = multi\n", "        self.multi = optional\n")))
+B('c05b_class_value_stripped_before_dispatch', ['C05'], 'R05.e',
+  (R, _BUILD_DEF, _BUILD_CLASS.replace("        return self._convert(value)\n", "        value = value.strip('/')\n        return self._convert(value)\n")))
+B('c05b_class_single_guard_wrong_branch', ['C05'], 'R05.e',
+  (R, _BUILD_DEF, _BUILD_CLASS.replace("    def _one(self, value):\n        if not value and self.optional:\n", "    def _one(self, value):\n        if not value or self.optional:\n")))
+
+# ---- sixth batch: R05.g (how the joined list is built) and R05.h (what a match returns) ------------------------------------------
+_JOIN = "    full_pattern += sep.join(processed)\n"
+_TRIM = "    if mode != S_STRICT and not processed[-1]:\n        processed = processed[:-1]\n"
+_APPEND = "            processed.append(part)\n"
+_GLUE = "        processed[-1] += path_seg_pattern\n"
+_MP_STORE = "                ret[conv_name] = conv(groups[conv_name])\n"
+_CPP_HEAD = "def _compile_path_pattern(pattern, mode=S_REWRITE):\n    processed = []\n    var_converter_map = {}\n"
+_VCM_STORE = "        var_converter_map[name] = build_converter(cur_conv,\n                                                  multi=multi,\n                                                  optional=optional)\n"
+_FOR_PART = "    for part in pattern.split('/'):\n"
+_MATCH_KEYS = ("        ret = {}\n        match = self.regex.match(path)\n        if not match:\n            return None\n"
+               "        try:\n            for conv_name in self.converters:\n                convert = self.converters[conv_name]\n"
+               "                ret[conv_name] = convert(match.group(conv_name))\n        except (KeyError, TypeError, ValueError):\n"
+               "            return None\n        return ret\n")
+_MATCH_PAIRS = ("        match = self.regex.match(path)\n        if not match:\n            return None\n        groups = match.groupdict()\n"
+                "        try:\n            converted = dict([(conv_name, conv(groups[conv_name]))\n                              for conv_name, conv in self.converters.items()])\n"
+                "        except (KeyError, TypeError, ValueError):\n            return None\n        return converted\n")
+
+T('c05t_trim_by_pop', ['C05'], (R, _TRIM, "    if mode != S_STRICT and not processed[-1]:\n        processed.pop()\n"))
+T('c05t_trim_by_del_nested_tests', ['C05'], (R, _TRIM, "    if mode != S_STRICT:\n        if processed[-1] == '':\n            del processed[-1]\n"))
+T('c05t_join_of_trimmed_view', ['C05'],
+  (R, _TRIM, "    joined = processed\n    if mode != S_STRICT and not processed[-1]:\n        joined = processed[:-1]\n"), (R, _JOIN, "    full_pattern += sep.join(joined)\n"))
+T('c05t_join_of_slice_in_place', ['C05'],
+  (R, _TRIM + "    full_pattern += sep.join(processed)\n",
+      "    if mode != S_STRICT and not processed[-1]:\n        full_pattern += sep.join(processed[:-1])\n    else:\n        full_pattern += sep.join(processed)\n"))
+T('c05t_glue_written_out', ['C05'], (R, _GLUE, "        processed[-1] = processed[-1] + path_seg_pattern\n"))
+T('c05t_parts_named_first', ['C05'], (R, _FOR_PART, "    parts = pattern.split('/')\n    for part in parts:\n"))
+T('c05t_literal_under_is_none', ['C05'], (R, "        if not match:\n            processed.append(part)\n", "        if match is None:\n            processed.append(part)\n"))
+T('c05t_containers_by_constructor', ['C05'], (R, _CPP_HEAD, "def _compile_path_pattern(pattern, mode=S_REWRITE):\n    processed = list()\n    var_converter_map = dict()\n"))
+T('c05t_match_path_keys_and_group', ['C05', 'C08'], (R, _MATCH, _MATCH_KEYS))
+T('c05t_match_path_dict_of_pairs', ['C05', 'C08'], (R, _MATCH, _MATCH_PAIRS))
+
+B('c05b_join_drops_first_element', ['C05'], 'R05.g', (R, _JOIN, "    full_pattern += sep.join(processed[1:])\n"))
+B('c05b_literal_part_lowercased', ['C05'], 'R05.g', (R, _APPEND, "            processed.append(part.lower())\n"))
+B('c05b_empty_literal_part_skipped', ['C05'], 'R05.g', (R, _APPEND, "            if part:\n                processed.append(part)\n"))
+B('c05b_trim_also_in_strict_mode', ['C05'], 'R05.g', (R, _TRIM, "    if not processed[-1]:\n        processed = processed[:-1]\n"))
+B('c05b_trim_lost', ['C05'], 'R05.g', (R, _TRIM, ""))
+B('c05b_trim_whatever_the_last_element', ['C05'], 'R05.g', (R, _TRIM, "    if mode != S_STRICT:\n        processed = processed[:-1]\n"))
+B('c05b_pop_trim_only_in_strict', ['C05'], 'R05.g', (R, _TRIM, "    if mode == S_STRICT and not processed[-1]:\n        processed.pop()\n"))
+B('c05b_trim_guard_wrong_branch', ['C05'], 'R05.g', (R, _TRIM, "    if mode != S_STRICT and processed[-1]:\n        processed = processed[:-1]\n"))
+B('c05b_trimmed_view_not_joined', ['C05'], 'R05.g',
+  (R, _TRIM, "    joined = processed\n    if mode != S_STRICT and not processed[-1]:\n        joined = processed[:-1]\n"))
+B('c05b_trim_after_the_join', ['C05'], 'R05.g', (R, _TRIM, ""), (R, _JOIN, _JOIN + _TRIM))
+B('c05b_segment_replaces_the_element', ['C05'], 'R05.g', (R, _GLUE, "        processed[-1] = path_seg_pattern\n"))
+B('c05b_segment_appended_as_own_element', ['C05'], 'R05.g', (R, _GLUE, "        processed.append(path_seg_pattern)\n"))
+B('c05b_glue_written_out_drops_old', ['C05'], 'R05.g', (R, _GLUE, "        processed[-1] = processed[0] + path_seg_pattern\n"))
+B('c05b_converter_map_is_a_default_argument', ['C05'], 'R05.g',
+  (R, _CPP_HEAD, "def _compile_path_pattern(pattern, mode=S_REWRITE, var_converter_map={}):\n    processed = []\n"))
+B('c05b_segment_list_shared_by_all_calls', ['C05'], 'R05.g',
+  (R, _CPP_HEAD, "_PROCESSED = []\n\n\ndef _compile_path_pattern(pattern, mode=S_REWRITE):\n    processed = _PROCESSED\n    var_converter_map = {}\n"))
+B('c05b_converter_only_for_mandatory_bindings', ['C05'], 'R05.g',
+  (R, _VCM_STORE, "        if not optional:\n            var_converter_map[name] = build_converter(cur_conv, multi=multi, optional=optional)\n"))
+B('c05b_pattern_split_limited', ['C05'], 'R05.g', (R, _FOR_PART, "    for part in pattern.split('/', 2):\n"))
+B('c05b_parts_named_then_filtered', ['C05'], 'R05.g', (R, _FOR_PART, "    parts = [p for p in pattern.split('/') if p]\n    for part in parts:\n"))
+B('c05b_duplicate_test_skipped_for_operators', ['C05'], 'R05.g', (R, "        if name in var_converter_map:\n", "        if name in var_converter_map and not op:\n"))
+B('c05b_match_path_converts_whole_path', ['C05'], 'R05.h', (R, _MP_STORE, "                ret[conv_name] = conv(path)\n"))
+B('c05b_match_path_returns_raw_groups', ['C05'], 'R05.h', (R, "            return None\n        return ret\n", "            return None\n        return groups\n"))
+B('c05b_match_path_converts_twice', ['C05'], 'R05.h', (R, _MP_STORE, "                ret[conv_name] = conv(conv(groups[conv_name]))\n"))
+B('c05b_match_path_keyed_by_converter', ['C05'], 'R05.h', (R, _MP_STORE, "                ret[conv] = conv(groups[conv_name])\n"))
+B('c05b_comprehension_drops_absent_bindings', ['C05'], 'R05.h',
+  (R, _MATCH, _MATCH_COMP.replace("self.converters.items()}\n", "self.converters.items() if captured[binding_name]}\n")))
+B('c05b_comprehension_reads_other_group', ['C05'], 'R05.h', (R, _MATCH, _MATCH_COMP.replace("convert(captured[binding_name])", "convert(captured.get('name'))")))
+B('c05b_keys_loop_wrong_converter', ['C05'], 'R05.h', (R, _MATCH, _MATCH_KEYS.replace("convert = self.converters[conv_name]\n", "convert = self.converters.get(path, unicode)\n")))
+B('c05b_pairs_result_not_returned', ['C05'], 'R05.h', (R, _MATCH, _MATCH_PAIRS.replace("        return converted\n", "        return groups\n")))
+B('c05b_loop_skips_empty_captures', ['C05'], 'R05.h',
+  (R, _MP_STORE, "                if groups[conv_name]:\n                    ret[conv_name] = conv(groups[conv_name])\n"))
+
+# ---- seventh batch: regressions hidden inside the larger restructurings of the third refactoring round ---------------------------
+# (the accumulating state of _compile_path_pattern moved into a small builder class; walrus guard + comprehension in match_path)
+_CPP_WHOLE = r're:(?s)def _compile_path_pattern\(pattern, mode=S_REWRITE\):.*?    return regex, var_converter_map\n'
+_BUILDER_INIT = ("class _PathRegexBuilder(object):\n    def __init__(self, mode):\n        self.strict = (mode == S_STRICT)\n"
+                 "        self.sep = '/' if self.strict else '/+'\n        self.segments = []\n        self.converters = {}\n\n")
+_BUILDER_ADD = ("    def add_literal(self, part):\n        self.segments.append(part)\n\n"
+                "    def add_binding(self, name, op, type_name):\n        if name in self.converters:\n"
+                "            raise InvalidPattern('duplicate path binding %s' % name)\n        if op == ':':\n            op = ''\n"
+                "        if not type_name:\n            type_name = 'unicode'\n        try:\n            cur_conv = TYPE_CONV_MAP[type_name]\n"
+                "            cur_patt = TYPE_PATT_MAP[type_name]\n        except KeyError:\n            raise InvalidPattern('unknown type specifier %s' % type_name)\n"
+                "        try:\n            multi = _OP_ARITY_MAP[op]\n            optional = _OP_OPTIONALITY_MAP[op]\n        except KeyError:\n"
+                "            raise InvalidPattern('unknown arity operator %r' % op)\n"
+                "        self.converters[name] = build_converter(cur_conv, multi=multi, optional=optional)\n"
+                "        self.segments[-1] += _SEG_TMPL.format(name=name, sep=self.sep, pattern=cur_patt, arity=op)\n\n")
+_BUILDER_BUILD = ("    def build(self):\n        segments, trailer = self.segments, ''\n        if not self.strict:\n            trailer = '/*'\n"
+                  "            if not segments[-1]:\n                segments = segments[:-1]\n"
+                  "        return re.compile('^' + self.sep.join(segments) + trailer + '$')\n\n\n")
+_BUILDER_USE = ("def _compile_path_pattern(pattern, mode=S_REWRITE):\n    if not pattern.startswith('/'):\n"
+                "        raise InvalidPattern('URL path patterns must start with a forward slash (got %r)' % pattern)\n"
+                "    if '//' in pattern:\n        raise InvalidPattern('URL path patterns must not contain multiple contiguous slashes (got %r)' % pattern)\n"
+                "    builder = _PathRegexBuilder(mode)\n    for part in pattern.split('/'):\n        if (match := BINDING.match(part)) is None:\n"
+                "            builder.add_literal(part)\n            continue\n        parsed = match.groupdict()\n"
+                "        builder.add_binding(name=parsed['name'], op=parsed['op'], type_name=parsed['type'])\n"
+                "    return builder.build(), builder.converters\n")
+_BUILDER = _BUILDER_INIT + _BUILDER_ADD + _BUILDER_BUILD + _BUILDER_USE
+_MATCH_WALRUS = ("        if (match := self.regex.match(path)) is None:\n            return None\n        groups = match.groupdict()\n"
+                 "        try:\n            return {conv_name: conv(groups[conv_name])\n                    for conv_name, conv in self.converters.items()}\n"
+                 "        except (ValueError, TypeError, KeyError):\n            return None\n")
+T('c05t_builder_class', ['C05'], (R, _CPP_WHOLE, _BUILDER))
+T('c05t_match_path_walrus_comprehension', ['C05', 'C08'], (R, _MATCH, _MATCH_WALRUS))
+B('c05b_builder_trims_in_every_mode', ['C05'], 'R05.g',
+  (R, _CPP_WHOLE, _BUILDER.replace("        if not self.strict:\n            trailer = '/*'\n            if not segments[-1]:\n                segments = segments[:-1]\n",
+                                   "        if not segments[-1]:\n            segments = segments[:-1]\n        if not self.strict:\n            trailer = '/*'\n")))
+B('c05b_builder_separator_flag_inverted', ['C05'], 'R05.d', (R, _CPP_WHOLE, _BUILDER.replace("self.sep = '/' if self.strict else '/+'", "self.sep = '/+' if self.strict else '/'")))
+B('c05b_builder_binding_separator_fixed', ['C05'], 'R05.d', (R, _CPP_WHOLE, _BUILDER.replace("sep=self.sep, pattern=cur_patt", "sep='/', pattern=cur_patt")))
+B('c05b_builder_colon_not_normalised', ['C05'], 'R05.b', (R, _CPP_WHOLE, _BUILDER.replace("        if op == ':':\n            op = ''\n", "")))
+B('c05b_builder_literal_added_stripped', ['C05'], 'R05.g', (R, _CPP_WHOLE, _BUILDER.replace("        self.segments.append(part)\n", "        self.segments.append(part.strip())\n")))
+B('c05b_builder_groups_crossed_at_the_call', ['C05'], 'R05.e',
+  (R, _CPP_WHOLE, _BUILDER.replace("op=parsed['op'], type_name=parsed['type']", "op=parsed['type'], type_name=parsed['op']")))
+B('c05b_walrus_comprehension_typeerror_escapes', ['C05', 'C08'], {'C05': 'R05.d', 'C08': 'R08.f'},
+  (R, _MATCH, _MATCH_WALRUS.replace("except (ValueError, TypeError, KeyError):", "except (ValueError, KeyError):")))
+B('c05b_walrus_guard_inverted', ['C05'], 'R05.d',
+  (R, _MATCH, _MATCH_WALRUS.replace("        if (match := self.regex.match(path)) is None:\n            return None\n",
+                                    "        if (match := self.regex.match(path)) is not None:\n            return None\n")))
+T('c05t_match_path_pairs_named_then_dict', ['C05', 'C08'],
+  (R, _MATCH, _MATCH_PAIRS.replace("            converted = dict([(conv_name, conv(groups[conv_name]))\n                              for conv_name, conv in self.converters.items()])\n",
+                                   "            pairs = [(conv_name, conv(groups[conv_name]))\n                     for conv_name, conv in self.converters.items()]\n")
+                          .replace("        return converted\n", "        return dict(pairs)\n")))
+B('c05b_match_path_pairs_named_swapped', ['C05'], 'R05.h',
+  (R, _MATCH, _MATCH_PAIRS.replace("            converted = dict([(conv_name, conv(groups[conv_name]))\n                              for conv_name, conv in self.converters.items()])\n",
+                                   "            pairs = [(conv(groups[conv_name]), conv_name)\n                     for conv_name, conv in self.converters.items()]\n")
+                          .replace("        return converted\n", "        return dict(pairs)\n")))
+
+# ---- eighth batch: rejections stand under no other condition; lookups written .get(); BINDING grammar; the two type maps ----------
+_LEAD = "    if not pattern.startswith('/'):\n"
+_DSLASH = "    if '//' in pattern:\n"
+_BIND_NAME = "                     r'(?P<name>[A-Za-z_]\\w*)'\n"
+_BIND_OP = "                     r'(?P<op>\\W*)'\n"
+_BIND_TYPE = "                     r'(?P<type>\\w+)*'\n"
+_ROUTE_COMPILE = "        _compile_path_pattern(pattern, self.slash_mode)  # checking pattern\n"
+_TYPE_MAPS = "TYPE_CONV_MAP = {}\nTYPE_PATT_MAP = {}\n"
+_TYPE_GET = ("        cur_conv = TYPE_CONV_MAP.get(type_name)\n        if cur_conv is None:\n            raise InvalidPattern('unknown type specifier %s'\n"
+             "                                 % type_name)\n        cur_patt = TYPE_PATT_MAP[type_name]\n")
+T('c05t_type_lookup_get_none_rejected', ['C05'], (R, _TYPETRY, _TYPE_GET))
+T('c05t_binding_op_explicit_class', ['C05'], (R, _BIND_OP, "                     r'(?P<op>[^\\w>]*)'\n"))
+T('c05t_binding_type_optional_group', ['C05'], (R, _BIND_TYPE, "                     r'(?P<type>\\w+)?'\n"))
+T('c05t_route_compile_reraises', ['C05'],
+  (R, _ROUTE_COMPILE, "        try:\n            _compile_path_pattern(pattern, self.slash_mode)  # checking pattern\n        except InvalidPattern:\n            raise\n"))
+T('c05t_guards_one_after_the_other', ['C05'], (R, _DSLASH, "    elif '//' in pattern:\n"))
+B('c05b_double_slash_rejected_only_in_strict', ['C05'], 'R05.c', (R, _DSLASH, "    if '//' in pattern and mode == S_STRICT:\n"))
+B('c05b_double_slash_test_nested_under_mode', ['C05'], 'R05.c',
+  (R, "    if '//' in pattern:\n        raise InvalidPattern('URL path patterns must not contain multiple'\n                             'contiguous slashes (got %r)' % pattern)\n",
+      "    if mode != S_REWRITE:\n        if '//' in pattern:\n            raise InvalidPattern('URL path patterns must not contain multiple'\n"
+      "                                 'contiguous slashes (got %r)' % pattern)\n"))
+B('c05b_leading_slash_only_for_nonempty', ['C05'], 'R05.c', (R, _LEAD, "    if pattern and not pattern.startswith('/'):\n"))
+B('c05b_route_init_swallows_invalid_pattern', ['C05'], 'R05.c',
+  (R, _ROUTE_COMPILE, "        try:\n            _compile_path_pattern(pattern, self.slash_mode)  # checking pattern\n        except InvalidPattern:\n            pass\n"))
+B('c05b_route_init_logs_value_error', ['C05'], 'R05.c',
+  (R, _ROUTE_COMPILE, "        try:\n            _compile_path_pattern(pattern, self.slash_mode)  # checking pattern\n        except ValueError as e:\n            self.pattern_error = e\n"))
+B('c05b_unknown_type_falls_back_to_text', ['C05'], 'R05.c',
+  (R, _TYPELOOK, "            cur_conv = TYPE_CONV_MAP.get(type_name, unicode)\n            cur_patt = TYPE_PATT_MAP.get(type_name, _STR_PATTERN)\n"))
+B('c05b_type_get_none_not_rejected', ['C05'], 'R05.c', (R, _TYPETRY, _TYPE_GET.replace("        if cur_conv is None:\n", "        if cur_conv is None and op:\n")))
+B('c05b_type_get_result_tested_inverted', ['C05'], 'R05.c', (R, _TYPETRY, _TYPE_GET.replace("        if cur_conv is None:\n", "        if cur_conv is not None:\n")))
+B('c05b_binding_operator_single_choice', ['C05'], 'R05.e', (R, _BIND_OP, "                     r'(?P<op>[:?])?'\n"))
+B('c05b_binding_name_without_digits', ['C05'], 'R05.e', (R, _BIND_NAME, "                     r'(?P<name>[A-Za-z_]+)'\n"))
+B('c05b_binding_groups_renamed_crossed', ['C05'], 'R05.e',
+  (R, _BIND_NAME, "                     r'(?P<type>[A-Za-z_]\\w*)'\n"), (R, _BIND_TYPE, "                     r'(?P<name>\\w+)*'\n"))
+B('c05b_binding_operator_eats_anything', ['C05'], 'R05.e', (R, _BIND_OP, "                     r'(?P<op>[^>]*?)'\n"))
+B('c05b_type_maps_one_object', ['C05'], 'R05.a', (R, _TYPE_MAPS, "TYPE_CONV_MAP = TYPE_PATT_MAP = {}\n"))
+B('c05b_type_maps_second_is_alias', ['C05'], 'R05.a', (R, _TYPE_MAPS, "TYPE_CONV_MAP = {}\nTYPE_PATT_MAP = TYPE_CONV_MAP\n"))
+
+# ---- ninth batch: R05.i -- the inherit_slashes option is read from a declaration wherever it is handed on ---------------------------
+_ADD_DEFAULT = "        kwargs.setdefault('inherit_slashes', getattr(rf, 'inherit_slashes', True))\n"
+_SUB_DEFAULT = "        kwargs.setdefault('inherit_slashes', self.inherit_slashes)\n"
+T('c05t_add_default_named_first', ['C05'], (A, _ADD_DEFAULT, "        inherit = getattr(rf, 'inherit_slashes', True)\n        kwargs.setdefault('inherit_slashes', inherit)\n"))
+T('c05t_add_default_attribute_when_present', ['C05'],
+  (A, _ADD_DEFAULT, "        if hasattr(rf, 'inherit_slashes'):\n            kwargs.setdefault('inherit_slashes', rf.inherit_slashes)\n"))
+T('c05t_subapp_default_by_membership', ['C05'],
+  (A, _SUB_DEFAULT, "        if 'inherit_slashes' not in kwargs:\n            kwargs['inherit_slashes'] = self.inherit_slashes\n"))
+B('c05b_add_default_literal', ['C05'], 'R05.i', (A, _ADD_DEFAULT, "        kwargs.setdefault('inherit_slashes', True)\n"))
+B('c05b_add_forces_literal', ['C05'], 'R05.i', (A, _ADD_DEFAULT, "        kwargs['inherit_slashes'] = True\n"))
+B('c05b_add_passes_literal_keyword', ['C05'], 'R05.i',
+  (A, _ADD_DEFAULT, ""), (A, "            bound_routes = rf.bind_all(self, **kwargs)\n", "            kwargs.pop('inherit_slashes', None)\n            bound_routes = rf.bind_all(self, inherit_slashes=True, **kwargs)\n"))
+B('c05b_add_defaults_from_literal_table', ['C05'], 'R05.i',
+  (A, _ADD_DEFAULT, "        kwargs.update(inherit_slashes=kwargs.get('inherit_slashes', True))\n"))
+B('c05b_subapp_default_literal', ['C05'], 'R05.i', (A, _SUB_DEFAULT, "        kwargs.setdefault('inherit_slashes', True)\n"))
+_ADD_BOTH = "        kwargs.setdefault('rebind_render', getattr(rf, 'rebind_render', True))\n" + _ADD_DEFAULT
+_SUB_BOTH = "        kwargs.setdefault('rebind_render', self.rebind_render)\n" + _SUB_DEFAULT
+_SUB_LOOP = "            bound_rt = rt.bind(app, **kwargs)\n"
+T('c05t_add_defaults_in_a_loop_over_option_names', ['C05'],
+  (A, _ADD_BOTH, "        for opt_name in ('rebind_render', 'inherit_slashes'):\n            kwargs.setdefault(opt_name, getattr(rf, opt_name, True))\n"))
+T('c05t_add_bound_method_named_first', ['C05'],
+  (A, "        if callable(getattr(rf, 'bind_all', None)):\n            bound_routes = rf.bind_all(self, **kwargs)\n",
+      "        bind_all = getattr(rf, 'bind_all', None)\n        if callable(bind_all):\n            bound_routes = bind_all(self, **kwargs)\n"))
+T('c05t_subapp_defaults_dict_then_update', ['C05'],
+  (A, "        kwargs['prefix'] = self.prefix\n" + _SUB_BOTH, "        bind_kwargs = dict(rebind_render=self.rebind_render, inherit_slashes=self.inherit_slashes)\n"
+      "        bind_kwargs.update(kwargs)\n        bind_kwargs['prefix'] = self.prefix\n"),
+  (A, _SUB_LOOP, "            bound_rt = rt.bind(app, **bind_kwargs)\n"))
+B('c05b_add_loop_defaults_literal', ['C05'], 'R05.i',
+  (A, _ADD_BOTH, "        for opt_name in ('rebind_render', 'inherit_slashes'):\n            kwargs.setdefault(opt_name, True)\n"))
+B('c05b_add_loop_reads_other_attribute', ['C05'], 'R05.i',
+  (A, _ADD_BOTH, "        for opt_name in ('rebind_render', 'inherit_slashes'):\n            kwargs.setdefault(opt_name, getattr(rf, 'rebind_render', True))\n"))
+B('c05b_subapp_defaults_dict_literal', ['C05'], 'R05.i',
+  (A, "        kwargs['prefix'] = self.prefix\n" + _SUB_BOTH, "        bind_kwargs = dict(rebind_render=self.rebind_render, inherit_slashes=True)\n"
+      "        bind_kwargs.update(kwargs)\n        bind_kwargs['prefix'] = self.prefix\n"),
+  (A, _SUB_LOOP, "            bound_rt = rt.bind(app, **bind_kwargs)\n"))
+B('c05b_add_bound_method_literal_default', ['C05'], 'R05.i',
+  (A, _ADD_DEFAULT, "        kwargs.setdefault('inherit_slashes', True)\n"),
+  (A, "        if callable(getattr(rf, 'bind_all', None)):\n            bound_routes = rf.bind_all(self, **kwargs)\n",
+      "        bind_all = getattr(rf, 'bind_all', None)\n        if callable(bind_all):\n            bound_routes = bind_all(self, **kwargs)\n"))
